@@ -290,6 +290,12 @@ def main(argv=None):
             rr = run_replay(path, repo)
         doc['replay_result'] = rr
         json.dump(doc, open(path, 'w'), indent=1, default=str)
+        if det.get('unconfirmed_model') and rr.get('status') != 'reproduced':
+            # counter-model of the second solver on the quantifier-free part of the query that z3 could not confirm and that the
+            # real code does not reproduce: not a verdict
+            n_undec += 1
+            undecided.append((oname, {'reason': 'z3 unknown; cvc5 counter-model on the quantifier-free facts neither confirmed by z3 nor reproduced on the real code', 'cond': det.get('cond')}))
+            continue
         reported += 1
         viol += 1
         tail = '' if rr.get('status') == 'reproduced' else ' no-failing-input-found'
